@@ -121,6 +121,45 @@ def scenario(ctx, p, rng, tmp, items, kind):
     items.append((p, ctld, True, pre, case))
 
 
+# calls that only CSE may serve (cache_scope="CSE") whose twin was replayed from the backend earlier in the same execution:
+# the twin is shallower (resolved first in the scheduler's FIFO order) or deeper / later (still unresolved: the CSE-only call runs)
+CORPUS = [
+    ([(False, [dict(callee=2), dict(callee=1)], None), (False, [dict(callee=2, scope="CSE")], None), (False, [], None)], {}),
+    ([(False, [dict(callee=1), dict(callee=2)], None), (False, [dict(callee=2, scope="CSE")], None), (False, [], None)], {}),
+    ([(False, [dict(callee=3), dict(callee=1)], None), (False, [dict(callee=2)], None), (False, [dict(callee=3, scope="CSE"), dict(callee=3)], None),
+      (False, [], ["r0"])], {"r0": 1}),
+    ([(False, [dict(callee=2), dict(callee=1), dict(callee=2, scope="CSE")], None), (False, [dict(callee=2, scope="CSE"), dict(callee=3)], None),
+      (False, [dict(callee=3)], None), (False, [], None)], {}),
+    ([(False, [dict(callee=2, prov=False), dict(callee=2), dict(callee=1)], None), (False, [dict(callee=2, scope="CSE")], None), (False, [], None)], {}),
+]
+
+
+def with_cse_twin(p, rng):
+    """p plus one CSE-only call of a definition that the root also calls directly (twin first or last among the root's calls)"""
+    n = len(p.defs)
+    if n < 3:
+        return p
+    c = rng.randrange(2, n)
+    holders = [j for j in range(1, c) if not p.defs[j].fails]
+    if not holders:
+        return p
+    j = rng.choice(holders)
+    defs = [sc.Defn(d.fails, [sc.Site(**{k: v for k, v in st.__dict__.items()}) for st in d.sites], d.limits, d.reads_ctx) for d in p.defs]
+    twin = sc.Site(c)
+    if rng.random() < 0.7:
+        defs[0].sites.insert(0, twin)
+    else:
+        defs[0].sites.append(twin)
+    if not any(st.callee == j for st in defs[0].sites):
+        defs[0].sites.append(sc.Site(j))
+    defs[j].sites.append(sc.Site(c, scope=rng.choice(["CSE", "CSE", None])))
+    try:
+        q = sc.Program(defs, dict(p.limits_cfg))
+    except ValueError:
+        return p
+    return q if sc.feasible(q) else p
+
+
 def run(ctx):
     rng = ctx.rng
     items = []
@@ -131,10 +170,12 @@ def run(ctx):
             p = sc.gen_program(rng, p_fail=0.12, p_limits=0.3, allow_badexec=(i % 5 == 0))
             while not sc.feasible(p):       # an infeasible job waits forever in a real run (outside C28's domain)
                 p = sc.gen_program(rng, p_fail=0.12, p_limits=0.3, allow_badexec=(i % 5 == 0))
+            if i % 3 == 1:
+                p = with_cse_twin(p, rng)
             scenario(ctx, p, rng, tmp, items, kinds[i % len(kinds)])
             if len(items) >= 50:
                 base.flush(ctx, items)
-        for defs, cfg in c06.CORPUS + base.CORPUS:
+        for defs, cfg in CORPUS + c06.CORPUS + base.CORPUS:
             p = c06.mk_prog([tuple(d) for d in defs], cfg)
             for kind in ("rerun", "edit"):
                 scenario(ctx, p, rng, tmp, items, kind)
